@@ -1,4 +1,4 @@
-use std::{cmp, mem, slice::Iter};
+use std::{mem, slice::Iter};
 
 use rosu_map::section::general::GameMode;
 
@@ -56,15 +56,11 @@ pub struct TaikoGradualDifficulty {
     diff_objects_iter: Iter<'static, RefCount<TaikoDifficultyObject>>,
     skills: TaikoSkills,
     total_hits: usize,
-    first_combos: FirstTwoCombos,
-}
-
-#[derive(Copy, Clone, Debug)]
-enum FirstTwoCombos {
-    None,
-    OnlyFirst,
-    OnlySecond,
-    Both,
+    /// The amount of hit objects, hits or not, that were passed so far.
+    passed_objects: usize,
+    /// Whether the first two hit objects are hits. They have no difficulty
+    /// object but might still add to the combo.
+    first_two_hits: [Option<bool>; 2],
 }
 
 impl TaikoGradualDifficulty {
@@ -79,15 +75,10 @@ impl TaikoGradualDifficulty {
         let take = difficulty.get_passed_objects();
         let clock_rate = difficulty.get_clock_rate();
 
-        let first_combos = match (
+        let first_two_hits = [
             map.hit_objects.first().map(HitObject::is_circle),
             map.hit_objects.get(1).map(HitObject::is_circle),
-        ) {
-            (None, _) | (Some(false), Some(false) | None) => FirstTwoCombos::None,
-            (Some(true), Some(false) | None) => FirstTwoCombos::OnlyFirst,
-            (Some(false), Some(true)) => FirstTwoCombos::OnlySecond,
-            (Some(true), Some(true)) => FirstTwoCombos::Both,
-        };
+        ];
 
         let HitWindows {
             od_great,
@@ -129,7 +120,8 @@ impl TaikoGradualDifficulty {
             skills,
             attrs,
             total_hits,
-            first_combos,
+            passed_objects: 0,
+            first_two_hits,
         })
     }
 }
@@ -141,46 +133,58 @@ fn extend_lifetime(
     unsafe { mem::transmute(iter) }
 }
 
+impl TaikoGradualDifficulty {
+    /// Process the next hit object and return whether it was a hit.
+    ///
+    /// Returns `None` if there are no more hit objects.
+    fn process_next_object(&mut self) -> Option<bool> {
+        // The first difficulty object belongs to the third note since each
+        // difficulty object requires the current, the last, and the second to
+        // last note. Hence, the first two objects have no difficulty object
+        // and we just skip processing.
+        let is_hit = if let Some(is_hit) = self.first_two_hits.get(self.passed_objects) {
+            (*is_hit)?
+        } else {
+            let curr = self.diff_objects_iter.next()?;
+            let borrowed = curr.get();
+
+            self.skills.rhythm.process(&borrowed, &self.diff_objects);
+            self.skills.reading.process(&borrowed, &self.diff_objects);
+            self.skills.color.process(&borrowed, &self.diff_objects);
+            self.skills.stamina.process(&borrowed, &self.diff_objects);
+            self.skills
+                .single_color_stamina
+                .process(&borrowed, &self.diff_objects);
+
+            borrowed.base_hit_type.is_hit()
+        };
+
+        self.passed_objects += 1;
+
+        Some(is_hit)
+    }
+
+    /// Process all hit objects up to and including the next hit.
+    fn process_next_hit(&mut self) -> Option<()> {
+        while !self.process_next_object()? {}
+
+        self.attrs.max_combo += 1;
+        self.idx += 1;
+
+        // After the last hit, the remaining objects belong to the play too
+        if self.idx == self.total_hits {
+            while self.process_next_object().is_some() {}
+        }
+
+        Some(())
+    }
+}
+
 impl Iterator for TaikoGradualDifficulty {
     type Item = TaikoDifficultyAttributes;
 
     fn next(&mut self) -> Option<Self::Item> {
-        // The first difficulty object belongs to the third note since each
-        // difficulty object requires the current, the last, and the second to
-        // last note. Hence, if we're still on the first or second object, we
-        // don't have a difficulty object yet and just skip processing.
-        if self.idx >= 2 {
-            loop {
-                let curr = self.diff_objects_iter.next()?;
-                let borrowed = curr.get();
-
-                self.skills.rhythm.process(&borrowed, &self.diff_objects);
-                self.skills.reading.process(&borrowed, &self.diff_objects);
-                self.skills.color.process(&borrowed, &self.diff_objects);
-                self.skills.stamina.process(&borrowed, &self.diff_objects);
-                self.skills
-                    .single_color_stamina
-                    .process(&borrowed, &self.diff_objects);
-
-                if borrowed.base_hit_type.is_hit() {
-                    self.attrs.max_combo += 1;
-
-                    break;
-                }
-            }
-        } else if self.diff_objects.is_empty() {
-            return None;
-        } else {
-            match self.first_combos {
-                FirstTwoCombos::OnlyFirst => self.attrs.max_combo = 1,
-                FirstTwoCombos::OnlySecond if self.idx == 1 => self.attrs.max_combo = 1,
-                FirstTwoCombos::Both if self.idx == 0 => self.attrs.max_combo = 1,
-                FirstTwoCombos::Both if self.idx == 1 => self.attrs.max_combo = 2,
-                _ => {}
-            }
-        }
-
-        self.idx += 1;
+        self.process_next_hit()?;
 
         let mut attrs = self.attrs.clone();
         let is_relax = self.difficulty.get_mods().rx();
@@ -197,65 +201,20 @@ impl Iterator for TaikoGradualDifficulty {
     }
 
     fn nth(&mut self, n: usize) -> Option<Self::Item> {
-        let mut take = cmp::min(n, self.len().saturating_sub(1));
+        // As per `Iterator::nth`, if there are less than `n + 1` values left
+        // then all of them are consumed and `None` is returned.
+        let remaining = self.len();
 
-        // The first two notes have no difficulty object but might add to combo
-        match (take, self.idx) {
-            (_, 2..) | (0, _) => {}
-            (1, 0) => {
-                take -= 1;
-                self.idx += 1;
-
-                match self.first_combos {
-                    FirstTwoCombos::None => {}
-                    FirstTwoCombos::OnlyFirst => self.attrs.max_combo = 1,
-                    FirstTwoCombos::OnlySecond => {}
-                    FirstTwoCombos::Both => self.attrs.max_combo = 1,
-                }
+        if n >= remaining {
+            if let Some(last) = remaining.checked_sub(1) {
+                let _ = self.nth(last);
             }
-            (_, 0) => {
-                take -= 2;
-                self.idx += 2;
 
-                match self.first_combos {
-                    FirstTwoCombos::None => {}
-                    FirstTwoCombos::OnlyFirst => self.attrs.max_combo = 1,
-                    FirstTwoCombos::OnlySecond => self.attrs.max_combo = 1,
-                    FirstTwoCombos::Both => self.attrs.max_combo = 2,
-                }
-            }
-            (_, 1) => {
-                take -= 1;
-                self.idx += 1;
-
-                match self.first_combos {
-                    FirstTwoCombos::None => {}
-                    FirstTwoCombos::OnlyFirst => self.attrs.max_combo = 1,
-                    FirstTwoCombos::OnlySecond => self.attrs.max_combo = 1,
-                    FirstTwoCombos::Both => self.attrs.max_combo = 2,
-                }
-            }
+            return None;
         }
 
-        for _ in 0..take {
-            loop {
-                let curr = self.diff_objects_iter.next()?;
-                let borrowed = curr.get();
-                self.skills.rhythm.process(&borrowed, &self.diff_objects);
-                self.skills.reading.process(&borrowed, &self.diff_objects);
-                self.skills.color.process(&borrowed, &self.diff_objects);
-                self.skills.stamina.process(&borrowed, &self.diff_objects);
-                self.skills
-                    .single_color_stamina
-                    .process(&borrowed, &self.diff_objects);
-
-                if borrowed.base_hit_type.is_hit() {
-                    self.attrs.max_combo += 1;
-                    self.idx += 1;
-
-                    break;
-                }
-            }
+        for _ in 0..n {
+            self.process_next_hit()?;
         }
 
         self.next()
